@@ -109,6 +109,9 @@ def sites(rng, w, cfg, t, p, path, out, in_set=False, none_ok=False):
             out.append({"kind": "bad", "path": path, "v": v, "in_set": in_set, "what": "leaf"})
         return
     k = t[0]
+    if k == "nt":
+        # a NamedTuple position is the heterogeneous tuple of the field types (bad items by index, wrong arity)
+        return sites(rng, w, cfg, nt_as_tup(w, t), p, path, out, in_set, none_ok)
     if k == "opt":
         if p[0] == "N":
             inner = gen.strip_wraps(t[1])
@@ -183,6 +186,10 @@ def sites(rng, w, cfg, t, p, path, out, in_set=False, none_ok=False):
                 out.append({"kind": "extra", "path": path, "kvs": kvs, "in_set": in_set,
                             "what": "extra-keys" + ("(non-str)" if any(a[0] != "s" for a, _ in kvs) else "")})
         return
+
+
+def nt_as_tup(w, t):
+    return ("tup", [f["ty"] if f["ty"] is not None else "any" for f in w["classes"][t[1]]["fields"]])
 
 
 def zone(f):
@@ -351,6 +358,8 @@ class Shape:
         R, w = self.R, self.w
         while not isinstance(t, str) and t is not None and (t[0] == "opt" or t[0] in WRAPS):
             t = t[1]
+        if not isinstance(t, str) and t is not None and t[0] == "nt":
+            t = nt_as_tup(w, t)  # the group raised at a NamedTuple position is the heterogeneous-tuple hook's
         is_group = isinstance(exc, BaseValidationError)
         kind = None if (t is None or isinstance(t, str)) else t[0]
         if isinstance(exc, IterableValidationError) and kind in SEQ + SETS + ("tup",) + MAPS:
@@ -556,7 +565,10 @@ def run_case(chk, S, w, cfg, ty, p0, faults, corr_fail, case_extra=None):
     r = S.impl_st(cfg, ty, p1, payload=p1v)
     for f in faults:
         chk.note("fault:" + f["what"], "fault-depth:%d" % len(f["path"]))
-    chk.note("faults:%d" % len(faults), "cfg:" + cfg_name(cfg))
+    chk.note("faults:%d" % len(faults), "cfg:" + cfg_name(cfg), "ty:" + (ty if isinstance(ty, str) else ty[0]))
+    for t_ in set(t if isinstance(t, str) else t[0] for rt in gen.reach_types(w, ty) for t in gen.walk_types(rt)):
+        if t_ in ("nt", "tup", "td", "cls", "union"):
+            chk.note("reaches:" + t_)
     key = cfg_name(cfg) + terms.ty_sx(ty) + terms.canon_sx(p1)
     nontrivial = not isinstance(ty, str)
     if r[0] != "err":
@@ -657,7 +669,7 @@ def case_types(chk, G, S, w, n_types):
     for _ in range(n_types):
         if w["classes"] and rng.random() < 0.55:
             ci = rng.randrange(len(w["classes"]))
-            ty = ("td" if w["classes"][ci]["kind"] == "td" else "cls", ci)
+            ty = ({"td": "td", "nt": "nt"}.get(w["classes"][ci]["kind"], "cls"), ci)
             for _ in range(rng.randint(0, 2)):
                 c = rng.random()
                 if c < 0.3:
@@ -687,7 +699,7 @@ def case_types(chk, G, S, w, n_types):
 def worlds(chk, drv, n_worlds):
     """like streams.worlds; generator features that belong to other properties are normalised away: a bare `Final`
     attribute (dispatch on the class of the default) is spelled `Final[<that class>]`"""
-    G = gen.Gen(chk.rng, max_depth=4, unions=True)
+    G = gen.Gen(chk.rng, max_depth=4, unions=True, nt=True)
     made = attempts = 0
     while made < n_worlds and attempts < n_worlds * 3:
         attempts += 1
